@@ -92,6 +92,14 @@ Pairs == [
                         SDecl(Bv, EObj(<<PSpread(EObj(<<Pair(Str(KB), I(0)), Pair(Str(KA), I(1))>>)), Pair(Str(KB), I(2))>>))>>,
   shared_copy     |-> <<SDecl(Cv, EList(<<I(1)>>)), SDecl(A, EList(<<Cv, Cv>>)),
                         SDecl(Bv, EList(<<EList(<<I(1)>>), EList(<<I(1)>>)>>))>>,
+  sharedobj       |-> <<SDecl(Cv, EObj(<<Pair(Str(KA), I(1))>>)), SDecl(A, EList(<<Cv, Cv>>)),
+                        SDecl(Bv, EList(<<EObj(<<Pair(Str(KA), I(1))>>), EObj(<<Pair(Str(KA), I(1))>>)>>))>>,
+  sharedobj2      |-> <<SDecl(Cv, EObj(<<Pair(Str(KA), EList(<<I(1)>>))>>)),
+                        SDecl(A, EObj(<<Pair(Str(KA), Cv), Pair(Str(KB), EList(<<Cv, Cv>>))>>)),
+                        SDecl(Bv, EObj(<<Pair(Str(KB), EList(<<EObj(<<Pair(Str(KA), EList(<<I(1)>>))>>), Cv>>)),
+                                         Pair(Str(KA), EObj(<<Pair(Str(KA), EList(<<I(1)>>))>>))>>))>>,
+  sharedlist3     |-> <<SDecl(Cv, EList(<<I(1)>>)), SDecl(A, EList(<<Cv, EList(<<Cv>>), Cv>>)),
+                        SDecl(Bv, EList(<<EList(<<I(1)>>), EList(<<EList(<<I(1)>>)>>), EList(<<I(1)>>)>>))>>,
   alias           |-> <<SDecl(A, EList(<<EObj(<<Pair(Str(KA), EList(<<>>))>>)>>)), SDecl(Bv, A)>>,
   nested          |-> <<SDecl(A, EObj(<<Pair(Str(KA), EList(<<EObj(<<Pair(Str(KB), EList(<<I(1), Str(<<120, 10, 121>>)>>))>>)>>))>>)),
                         SDecl(Cv, EList(<<I(1)>>)), SOpAssign(Cv, "+", EList(<<Str(<<120, 10, 121>>)>>)),
